@@ -387,8 +387,12 @@ def build_local_filter(cfg):
     from pbt.core import import_dsw
     dsw = import_dsw()
     gc = None if cfg.get("gc") is None else [float(cfg["gc"][0]), float(cfg["gc"][1])]
+    motifs = None if cfg.get("motifs") is None else list(cfg["motifs"])
+    if cfg.get("tuples"):  # the same configuration handed over as tuples
+        gc = None if gc is None else tuple(gc)
+        motifs = None if motifs is None else tuple(motifs)
     return dsw.LocalBioFilter(observed_length=cfg["k"], max_homopolymer_runs=cfg.get("run"), gc_range=gc,
-                              undesired_motifs=None if cfg.get("motifs") is None else list(cfg["motifs"]))
+                              undesired_motifs=motifs)
 
 
 @st.composite
